@@ -75,6 +75,30 @@ pub fn text_palette() -> &'static Vec<String> {
             "héllo wörld".into(),
             "x".repeat(24),
             "z".repeat(256),
+            // (appended later: indices above are referenced by stored traces; the long text stays
+            // last) the registered NAMES of typed fields - text labels that merely look reserved
+            "iss".into(),
+            "sub".into(),
+            "aud".into(),
+            "exp".into(),
+            "nbf".into(),
+            "iat".into(),
+            "cti".into(),
+            "alg".into(),
+            "crit".into(),
+            "content type".into(),
+            "kid".into(),
+            "IV".into(),
+            "Partial IV".into(),
+            "counter signature".into(),
+            "kty".into(),
+            "key_ops".into(),
+            "Base IV".into(),
+            "crv".into(),
+            "k".into(),
+            "1".into(),
+            "-1".into(),
+            "Text/Plain".into(),
             long,
         ]
     })
